@@ -116,6 +116,10 @@ class Runner:
         except Exception as e:  # noqa
             out.append("N EXC:" + type(e).__name__ + " | " + canon.obs2s(s, StorageType))
             return None
+        return self.record(a)
+
+    def record(self, a):
+        s, out, mon = self.s, self.out, self.mon
         txt = canon.act2s(a)
         out.append("N Y:" + txt + " | " + canon.obs2s(s, StorageType))
         v = value_check(a)
@@ -158,6 +162,32 @@ class Runner:
                     k -= 1
                     if k <= 0:
                         break
+        elif o[0] == "l":
+            # the documented way of driving a schedule: `for action in schedule: ...; break` at EndReverse, k times
+            k, lim = o[1:].split(":")
+            k, lim = int(k), int(lim)
+            while k > 0 and lim > 0:
+                if type(s).__name__ == "MixedCheckpointSchedule":
+                    mixed_mod.numba = getattr(s, "_verif_numba", mixed_mod.numba)
+                ended = True
+                try:
+                    with contextlib.redirect_stdout(io.StringIO()):
+                        for a in s:
+                            lim -= 1
+                            t = self.record(a)
+                            if t == "ER":
+                                k -= 1
+                                ended = False
+                                break
+                            if lim <= 0:
+                                ended = False
+                                break
+                except Exception as e:  # noqa
+                    out.append("N EXC:" + type(e).__name__ + " | " + canon.obs2s(s, StorageType))
+                    break
+                if ended:
+                    out.append("N STOP | " + canon.obs2s(s, StorageType))
+                    break
         else:
             raise ValueError(o)
         return True
